@@ -21,7 +21,7 @@ From LV Require Import Base.Bytes Base.Sx Model.Obj Model.DocQ Gen.Crypto
   Model.Crypto.Word Model.Crypto.MD5 Model.Crypto.RC4 Model.Crypto.PKCS5 Model.Crypto.Handler Model.Crypto.Concrete
   Spec.Crypto.Iso Spec.Crypto.IsoConcrete
   Proofs.CryptoProofs Proofs.CryptoProofsFilter Proofs.CryptoProofsObject Proofs.IsoProofs Proofs.IsoProofsData
-  Proofs.IsoProofsObj Proofs.IsoProofsFilter Proofs.IsoProofsExamples.
+  Proofs.IsoProofsObj Proofs.IsoProofsFilter Proofs.IsoProofsAuth Proofs.IsoProofsDoc Proofs.IsoProofsExamples.
 Local Open Scope N_scope.
 
 (* ---------------- rung 1: constants and formulations ---------------- *)
@@ -210,6 +210,80 @@ Theorem C06_iso_encrypt_lopdf_decrypt_object : forall P, (forall m, length (p_md
   decrypt_object P st id (fst (encrypt_indirect (iprims_of P) ip fek id o ivs)) = Ok (norm_len st o).
 Proof. exact iso_encrypt_lopdf_decrypt_object. Qed.
 
+(* ---------------- rung 4: whole documents, revisions 2-4 ---------------- *)
+(* The standard's own consistency: the encryption dictionary the standard's writer makes (Algorithms 3, 4/5)
+   authenticates its user password by Algorithm 6 and its owner password by Algorithm 7, and yields the key of
+   Algorithm 2 the writer encrypted with.  (An owner password that Algorithm 6 takes for the user password is taken
+   for it by the standard and by lopdf alike; that it then yields the same key is cryptographic, not logical.) *)
+Theorem C06_iso_open_key_user_r4 : forall P, (forall m, length (p_md5 P m) = 16%nat) ->
+  forall R L owner user Pz id0 em arb, (2 <= R <= 4)%Z ->
+  let O := make_O P R L owner user in
+  let U := make_U P R L O Pz id0 em user arb in
+  match alg6 (iprims_of P) R L O U Pz id0 em user with Some k => Some k | None => alg7 (iprims_of P) R L O U Pz id0 em user end
+  = Some (alg2 (iprims_of P) R L O Pz id0 em user).
+Proof. exact open_key_user_r4. Qed.
+
+Theorem C06_iso_open_key_owner_r4 : forall P, (forall m, length (p_md5 P m) = 16%nat) ->
+  forall R L opw user Pz id0 em arb, (2 <= R <= 4)%Z ->
+  let O := make_O P R L (Some opw) user in
+  let U := make_U P R L O Pz id0 em user arb in
+  alg6 (iprims_of P) R L O U Pz id0 em opw = None ->
+  match alg6 (iprims_of P) R L O U Pz id0 em opw with Some k => Some k | None => alg7 (iprims_of P) R L O U Pz id0 em opw end
+  = Some (alg2 (iprims_of P) R L O Pz id0 em user).
+Proof. exact open_key_owner_r4. Qed.
+
+(* lopdf opens what ANY conforming writer wrote (revisions 2-4): for every encryption dictionary [ip] of the shapes
+   Table 20 defines (V 1 / R 2; V 2 / R 3 with 40..128 bits; V 4 / R 4 with crypt filters, EFF, EncryptMetadata), every
+   key [fek] the standard's opening procedure yields for the password, every document encrypted object by object as
+   the standard prescribes -- with the encryption dictionary as an indirect object ([eid = Some _]) or directly in
+   the trailer ([eid = None]) --, Document::decrypt_raw returns Ok and leaves the plain document: every object (with
+   Stream::set_content's Length bookkeeping: [norm_objs], the identity when Length is right -- C06_opened_exact),
+   the trailer without Encrypt, the encryption dictionary object removed *)
+Theorem C06_lopdf_opens_r4 : forall P, (forall m, length (p_md5 P m) = 16%nat) ->
+  forall ip fek eid d ivs id0 pw,
+  aes_ok P -> shape_r4 ip -> cf_ok ip -> conforming_P (ip_P ip) = true ->
+  length (ip_O ip) = 32%nat -> length (ip_U ip) = 32%nat ->
+  doc_ok ip d eid -> file_id_0 d = Ok id0 ->
+  open_r4 P ip id0 pw = Some fek ->
+  doc_decrypt_raw P (enc_doc ip (fst (Iso.encrypt_objects (iprims_of P) ip fek (d_objects d) ivs)) eid d) pw =
+  DOk (opened_doc d eid (st_of ip fek)) (st_of ip fek).
+Proof. exact lopdf_opens_r4. Qed.
+
+(* the interoperability statement of the property, direction standard -> lopdf, revisions 2-4: a document encrypted
+   by the standard's writer (Iso.encrypt_document: Algorithms 3, 4/5, 2, 1 with explicit random choices) opens in
+   lopdf (Document::decrypt) with the user password ... *)
+Theorem C06_iso_encrypt_lopdf_decrypt_user_r4 : forall P, (forall m, length (p_md5 P m) = 16%nat) ->
+  forall rq eid rnd ivs d id0,
+  aes_ok P -> request_ok_r4 rq -> doc_ok (rq_core rq) d eid -> file_id_0 d = Ok id0 ->
+  doc_decrypt P (encrypt_document (iprims_of P) rq eid rnd ivs d) (rq_user rq) =
+  DOk (opened_doc d eid (st_of (ip_r4 P rq id0 rnd) (fek_r4 P rq id0))) (st_of (ip_r4 P rq id0 rnd) (fek_r4 P rq id0)).
+Proof. exact iso_encrypt_lopdf_decrypt_user_r4. Qed.
+
+(* ... and with the owner password *)
+Theorem C06_iso_encrypt_lopdf_decrypt_owner_r4 : forall P, (forall m, length (p_md5 P m) = 16%nat) ->
+  forall rq eid rnd ivs d id0,
+  aes_ok P -> request_ok_r4 rq -> doc_ok (rq_core rq) d eid -> file_id_0 d = Ok id0 ->
+  forall opw, rq_owner rq = Some opw ->
+  alg6 (iprims_of P) (rq_R rq) (rq_Length rq) (ip_O (ip_r4 P rq id0 rnd)) (ip_U (ip_r4 P rq id0 rnd)) (rq_P rq) id0
+       (rq_EncryptMetadata rq) opw = None ->
+  doc_decrypt P (encrypt_document (iprims_of P) rq eid rnd ivs d) opw =
+  DOk (opened_doc d eid (st_of (ip_r4 P rq id0 rnd) (fek_r4 P rq id0))) (st_of (ip_r4 P rq id0 rnd) (fek_r4 P rq id0)).
+Proof. exact iso_encrypt_lopdf_decrypt_owner_r4. Qed.
+
+Theorem C06_opened_exact : forall d eid st, Forall (fun io => lengths_ok st (snd io)) (d_objects d) ->
+  opened_doc d eid st =
+  {| d_version := d_version d; d_binary_mark := d_binary_mark d; d_trailer := d_trailer d; d_objects := d_objects d;
+     d_max_id := match eid with Some e => N.max (d_max_id d) (fst e) | None => d_max_id d end |}.
+Proof. exact opened_doc_exact. Qed.
+
+(* non-vacuity: the V 2 request and document of the computed instances below, with the dictionary indirect and
+   direct; a V 4 request with two crypt filters, EFF and EncryptMetadata false *)
+Theorem C06_example_request_ok :
+  (request_ok_r4 ex_rq_v2 /\ doc_ok (rq_core ex_rq_v2) ex_doc (Some (5, 0)) /\
+   doc_ok (rq_core ex_rq_v2) ex_doc None /\ file_id_0 ex_doc = Ok (bs "0123456789abcdef")) /\
+  (request_ok_r4 ex_rq_v4 /\ doc_ok (rq_core ex_rq_v4) ex_doc None).
+Proof. exact (conj ex_request_ok_v2 ex_request_ok_v4). Qed.
+
 (* The direction lopdf -> standard at object level is C06_encrypt_object (lopdf's output IS the standard writer's
    output) together with C06_lopdf_data_iso_decrypt per string/stream; the object- and document-level round trip
    of the SPECIFICATION's reader (decrypt_indirect . encrypt_indirect = id, open_document . encrypt_document = id)
@@ -268,14 +342,7 @@ Theorem C06_example_decodeparms_array :
 Proof. exact decodeparms_array_example. Qed.
 
 (* the encryption dictionary as a direct object of the trailer: recognised, and the document opens *)
-Theorem C06_example_direct_encrypt :
-  is_encrypted ex_doc_direct = true /\
-  match find_encrypt ex_doc_direct with Some (None, _) => true | _ => false end = true /\
-  match doc_decrypt concrete ex_doc_direct (bs "user") with
-  | DOk d' _ => bytes_eqb (sx_print (objmap_to_sx (d_objects d'))) (sx_print (objmap_to_sx (d_objects ex_doc)))
-                && match dict_get (d_trailer d') K_Encrypt with None => true | _ => false end
-  | _ => false
-  end = true.
+Theorem C06_example_direct_encrypt : opens_direct ex_doc_direct ex_doc (bs "user") = true.
 Proof. exact direct_encrypt_example. Qed.
 
 Print Assumptions C06_constants.
@@ -307,6 +374,13 @@ Print Assumptions C06_filter_selection.
 Print Assumptions C06_encrypt_object.
 Print Assumptions C06_encrypt_objects.
 Print Assumptions C06_iso_encrypt_lopdf_decrypt_object.
+Print Assumptions C06_iso_open_key_user_r4.
+Print Assumptions C06_iso_open_key_owner_r4.
+Print Assumptions C06_lopdf_opens_r4.
+Print Assumptions C06_iso_encrypt_lopdf_decrypt_user_r4.
+Print Assumptions C06_iso_encrypt_lopdf_decrypt_owner_r4.
+Print Assumptions C06_opened_exact.
+Print Assumptions C06_example_request_ok.
 Print Assumptions C06_example_matches_r4.
 Print Assumptions C06_example_state_matches.
 Print Assumptions C06_example_iso_encrypt_lopdf_decrypt.
